@@ -395,9 +395,9 @@ struct __attribute__((packed)) kepoll_event { uint32_t events; uint64_t data; };
 static_assert(sizeof(kepoll_event) == sizeof(struct epoll_event), "epoll_event layout");
 
 int Kernel::k_epoll_wait(int epfd, void *events, int maxevents, int timeout_ms, Owner by) {
-    (void)by;
     epoll_waits++;
     yield_point("epoll_wait");
+    if (by == OWN_LIB && on_epoll_wait) on_epoll_wait();
     File *ep = get(epfd);
     if (!ep) { errno = EBADF; return -1; }
     if (ep->kind != F_EPOLL || maxevents <= 0) { errno = EINVAL; return -1; }
